@@ -135,7 +135,7 @@ def scopeOf (o : Op) : FsPathSpec.Scope :=
   | .deleteObjects b _ => { writeBuckets := [b] }
   | .copyObject _ sbk sk b k => { readBuckets := [sbk], readObjects := [(sbk, sk)], writeBuckets := [b], writeObjects := [(b, k)] }
   | .putObject b k .. => { writeBuckets := [b], writeObjects := [(b, k)] }
-  | .createMultipartUpload b k .. => { writeObjects := [(b, k)] }
+  | .createMultipartUpload b k .. => { readBuckets := [b], writeObjects := [(b, k)] }
   | .uploadPart _ _ u .. => { uploads := cu u }
   | .uploadPartCopy _ sbk sk _ _ u .. => { readBuckets := [sbk], readObjects := [(sbk, sk)], uploads := cu u }
   | .listParts _ _ u => { uploads := u :: cu u }
@@ -181,7 +181,7 @@ def staticCodes : List String :=
   ["InvalidBucketName", "InvalidArgument", "InvalidRequest", "NotImplemented", "InvalidStorageClass",
    "IncompleteBody", "UnexpectedContent", "InvalidPart", "PANIC"]
 
-def dynCodes : List String := ["AccessDenied", "InternalError", "EntityTooSmall", "NoSuchKey"]
+def dynCodes : List String := ["AccessDenied", "InternalError", "EntityTooSmall", "NoSuchKey", "NoSuchBucket"]
 
 def labelOfRel (labels : List (Bytes × FsPathSpec.Label)) (rel : Bytes) : FsPathSpec.Label :=
   match labels.find? (·.1 = rel) with
